@@ -332,6 +332,22 @@ def keywords_to_positional(trees: List[ast.AST]) -> None:
         for n in ast.walk(t):
             if isinstance(n, (ast.FunctionDef, ast.AsyncFunctionDef)):
                 defs.setdefault(n.name, []).append(n)
+    # a class called by name binds its arguments to __init__ (without self)
+    classes: Dict[str, list] = {}
+    for t in trees:
+        for n in ast.walk(t):
+            if isinstance(n, ast.ClassDef):
+                classes.setdefault(n.name, []).append(n)
+    for cname, cl in classes.items():
+        if len(cl) == 1 and cname not in defs:
+            inits = [m for m in cl[0].body if isinstance(m, ast.FunctionDef) and m.name == "__init__"]
+            if len(inits) == 1 and inits[0].args.args and inits[0].args.args[0].arg == "self":
+                import copy as _c
+                fake = _c.copy(inits[0])
+                fake.args = _c.copy(inits[0].args)
+                fake.args.args = list(inits[0].args.args[1:])
+                fake.decorator_list = []
+                defs[cname] = [fake]
     for t in trees:
         _KwToPos(defs).visit(t)
 
@@ -719,6 +735,18 @@ class _Literals(ast.NodeTransformer):
             return node
         return ast.copy_location(ast.Call(ast.Attribute(ast.Constant("".join(fmt)), "format", ast.Load()), args, kws), node)
 
+    def visit_While(self, node):
+        self.generic_visit(node)
+        # `while len(q) > 0:` / `while len(q) != 0:` / `while len(q) >= 1:`  ->  `while q:` (worklists are lists/deques)
+        t = node.test
+        if isinstance(t, ast.Compare) and len(t.ops) == 1 and isinstance(t.left, ast.Call) and isinstance(t.left.func, ast.Name) \
+                and t.left.func.id == "len" and len(t.left.args) == 1 and isinstance(t.left.args[0], ast.Name) \
+                and isinstance(t.comparators[0], ast.Constant):
+            k, op = t.comparators[0].value, type(t.ops[0])
+            if (op in (ast.Gt, ast.NotEq) and k == 0) or (op is ast.GtE and k == 1):
+                node.test = t.left.args[0]
+        return node
+
     def visit_For(self, node):
         self.generic_visit(node)
         # `for w in (A, B): BODY` over a short literal tuple/list of plain chains, without break/continue/else:
@@ -934,6 +962,10 @@ class _PairedNames(ast.NodeTransformer):
                 continue
             na = [t.id for t in pa.targets[0].elts]
             if na != [t.id for t in pb.targets[0].elts] or na[0] == na[1] or set(na) & params:
+                continue
+            # only the "same two objects in one order or the other" pattern: (X, Y) / (Y, X) with X, Y plain chains
+            va, vb = [ast.dump(e) for e in pa.value.elts], [ast.dump(e) for e in pb.value.elts]
+            if va != vb[::-1] or not all(_pure_chain(e) for e in pa.value.elts):
                 continue
             stores = [x for x in ast.walk(node) if isinstance(x, ast.Name) and x.id in na and isinstance(x.ctx, (ast.Store, ast.Del))]
             if len(stores) != 4:
